@@ -28,7 +28,8 @@ def build(feats, pkg=PKG):
 
 
 def obs_of(r, feat, expect_empty=False):
-    return {"exit": r.exit, "exc": r.exc or "-", "frame": r.frame or "-", "msg": (r.msg or "-")[:200], "feature": feat, "opts": r.opts.key(),
+    # packages of other checks may have nothing public to emit (private-only scenarios): an API file is all that is demanded of them
+    return {"needStubs": not (feat and feat[0] == "sweep"), "exit": r.exit, "exc": r.exc or "-", "frame": r.frame or "-", "msg": (r.msg or "-")[:200], "feature": feat, "opts": r.opts.key(),
             "hasApi": r.api() is not None, "nStubs": len(r.stubs), "expectEmpty": expect_empty}
 
 
@@ -106,7 +107,7 @@ def main(v: Verdict) -> None:
         pass
     sw = sweep_jobs.cache
     if sw:
-        rs = run_many([{"src": j["src"], "opts": j["opts"], "timeout": 900} for _, j in sw])
+        rs = run_many([{"src": j["src"], "opts": j["opts"], "timeout": 900 if TIER == "quick" else 3600} for _, j in sw])
         for (name, j), r in zip(sw, rs):
             obs.append({"id": f"sweep:{name}:{j['src'].name}:{j['opts'].key()}", "obs": obs_of(r, ["sweep", name])})
     v.extra["swept_packages"] = len(sw)
